@@ -67,6 +67,8 @@ type FnVerifier struct {
 	rec        map[string]bool // when non-nil, arr()/ghost() record the arrays they are asked for
 	opqDeps    map[string][]string
 	opqDone    map[string]bool
+	siteSeen    map[string]int
+	assertSites map[int]bool
 	oblEnv     *TEnv // environment of the clause being turned into an obligation (for known-finding classes)
 }
 
@@ -90,6 +92,9 @@ type frame struct {
 	deferred []*ssa.Defer
 	sortArg  *ssa.MakeInterface
 	deadMemo map[*ssa.Alloc]bool
+	curBlock *ssa.BasicBlock
+	curIdx   int
+	siteOrd  map[token.Pos]int
 }
 
 type exit struct {
@@ -755,6 +760,9 @@ func (f *frame) collectDebug() {
 	for _, b := range f.fn.Blocks {
 		for i, in := range b.Instrs {
 			if d, ok := in.(*ssa.DebugRef); ok && d.X != nil {
+				if fv, isVar := d.Object().(*types.Var); isVar && fv.IsField() {
+					continue // a field name in a selector, not a variable
+				}
 				if name, ok := identOf(d.Expr); ok {
 					f.debug[b] = append(f.debug[b], debugRef{name: name, val: d.X, isAddr: d.IsAddr, idx: i})
 				}
@@ -826,10 +834,11 @@ func (f *frame) execBlock(b *ssa.BasicBlock, st0 *State, reach0 Term) {
 		f.enterLoop(b, li, phiEntry)
 	}
 	// ---- instructions
-	for _, in := range b.Instrs {
+	for idx, in := range b.Instrs {
 		if _, ok := in.(*ssa.Phi); ok {
 			continue
 		}
+		f.curBlock, f.curIdx = b, idx
 		f.execInstr(in)
 	}
 	f.reachOut[b] = f.reach
